@@ -455,4 +455,28 @@ theorem partition_outcome (r : Bool) (len : Nat) (hlen : (len : Int) < 922337203
   | panic => simp [AccL]
   | hang => simp [AccL]
 
+/-! ## Never a panic (repaired parsers), for ALL byte strings -/
+
+/-- Clustal with the bounds check of the row index (commit e77b337) never panics -/
+theorem clustal_no_panic (o : POpts) (bs : List Byte) : Clustal.parse true o bs ≠ .panic :=
+  Gv.Proofs.ClustalOutcome.parse_np o bs
+
+/-- Phylip (strict and relaxed) without the allocation from the header count (commit 74f5867) never panics
+(ASCII input; the rune-index panic of strict names on non-ASCII bytes, repaired by the same commit, lies
+outside the ASCII models and is covered by the correspondence run) -/
+theorem phylip_no_panic (o : POpts) (bs : List Byte) : Phylip.parse false o bs ≠ .panic := by
+  unfold Phylip.parse
+  cases h : Phylip.parseOne false o { inp := bs } with
+  | ok v =>
+    obtain ⟨r, s'⟩ := v
+    cases r <;> simp [Phylip.toOutcome]
+  | error e =>
+    cases e <;> simp [Phylip.toOutcome]
+    exact Gv.Proofs.PhylipOutcome.parseOne_np o _ h
+
+/-- Nexus (every combination of the repairs) never panics and never exits -/
+theorem nexus_no_panic (f : Nexus.Facts) (o : POpts) (bs : List Byte) :
+    Nexus.parse f o bs ≠ .panic ∧ Nexus.parse f o bs ≠ .exit :=
+  Gv.Proofs.NexusOutcome.parse_soft f o bs
+
 end Gv.Props.C03
